@@ -376,6 +376,193 @@ func genPhase(noErr bool) func(t *rapid.T) phaseCase {
 	}
 }
 
+// ---- prior use, then in-place edits ----------------------------------------------------------------
+//
+// The statement quantifies over the sequences AS THEY ARE when the search / Phase is called: a bag
+// that was searched (or phased) once and then edited in place by the library's own mutators must
+// give the answers of a fresh bag with the same content. A history is drawn as a list of edits
+// whose END state is the case's sequences: the state before each edit is derived backwards
+// (inverse of the edit), the bag is built in the first state, used once, edited forwards, and the
+// operation is then judged by the same oracle on the content the bag holds after the edits.
+
+type edit struct {
+	Kind string `json:"kind"` // rc-all | rc-some | seq-rc | setchar | write | replace
+	Rows []int  `json:"rows,omitempty"`
+	Row  int    `json:"row,omitempty"`
+	At   int    `json:"at,omitempty"`   // start of the rewritten range, modulo the room there is
+	Junk string `json:"junk,omitempty"` // what the range held before the edit
+	Old  string `json:"old,omitempty"`  // replace: Old -> New
+	New  string `json:"new,omitempty"`
+}
+
+type history struct {
+	Search       string `json:"search"` // first use: "orf" (LongestORF) or "phase" (a whole Phase where that is safe)
+	PriorReverse bool   `json:"priorreverse"`
+	Edits        []edit `json:"edits"`
+}
+
+var editKinds = []string{"rc-all", "rc-all", "rc-some", "seq-rc", "setchar", "write", "replace"}
+
+func genHistory(t *rapid.T, rows []gen.Row) *history {
+	h := &history{Search: rapid.SampledFrom([]string{"orf", "phase"}).Draw(t, "prior"), PriorReverse: rapid.Bool().Draw(t, "priorrev")}
+	n := rapid.IntRange(1, 3).Draw(t, "nedits")
+	for i := 0; i < n; i++ {
+		e := edit{Kind: rapid.SampledFrom(editKinds).Draw(t, "editkind")}
+		switch e.Kind {
+		case "rc-some", "seq-rc":
+			for r := range rows {
+				if rapid.Bool().Draw(t, "editrow") {
+					e.Rows = append(e.Rows, r)
+				}
+			}
+			if len(e.Rows) == 0 {
+				e.Rows = []int{rapid.IntRange(0, len(rows)-1).Draw(t, "editrow1")}
+			}
+		case "setchar", "write":
+			e.Row = rapid.IntRange(0, len(rows)-1).Draw(t, "editrow1")
+			e.At = rapid.IntRange(0, 999).Draw(t, "editat")
+			e.Junk = gen.SeqN(t, "ACGT", rapid.IntRange(1, 12).Draw(t, "junklen"))
+		case "replace":
+			// New = a piece of the end state (often a start or a stop codon), Old = a drawn word
+			src := rows[rapid.IntRange(0, len(rows)-1).Draw(t, "editrow1")].Seq
+			l := rapid.IntRange(1, 6).Draw(t, "newlen")
+			if l > len(src) {
+				l = len(src)
+			}
+			a := rapid.IntRange(0, len(src)-l).Draw(t, "newat")
+			e.New = src[a : a+l]
+			e.Old = gen.SeqN(t, "ACGT", rapid.IntRange(5, 8).Draw(t, "oldlen"))
+		}
+		h.Edits = append(h.Edits, e)
+	}
+	return h
+}
+
+func editRange(e edit, l int) (a, b int) {
+	n := len(e.Junk)
+	if n > l {
+		n = l
+	}
+	a = e.At % (l - n + 1)
+	return a, a + n
+}
+
+// states derives the content before every edit: states[len(edits)] = the end state (the case's
+// sequences), states[j] = content before edit j
+func (h *history) states(final []gen.Row) [][]string {
+	st := make([][]string, len(h.Edits)+1)
+	cur := make([]string, len(final))
+	for i, r := range final {
+		cur[i] = r.Seq
+	}
+	st[len(h.Edits)] = cur
+	for j := len(h.Edits) - 1; j >= 0; j-- {
+		e := h.Edits[j]
+		prev := append([]string(nil), st[j+1]...)
+		switch e.Kind {
+		case "rc-all":
+			for i := range prev {
+				prev[i] = revcompKeepCase(prev[i])
+			}
+		case "rc-some", "seq-rc":
+			for _, i := range e.Rows {
+				if i < len(prev) {
+					prev[i] = revcompKeepCase(prev[i])
+				}
+			}
+		case "setchar", "write":
+			if e.Row < len(prev) && len(prev[e.Row]) > 0 {
+				a, b := editRange(e, len(prev[e.Row]))
+				prev[e.Row] = prev[e.Row][:a] + e.Junk[:b-a] + prev[e.Row][b:]
+			}
+		case "replace":
+			if e.New != "" && e.Old != "" {
+				for i := range prev {
+					prev[i] = strings.ReplaceAll(prev[i], e.New, e.Old)
+				}
+			}
+		}
+		st[j] = prev
+	}
+	return st
+}
+
+func rowsOf(names []gen.Row, seqs []string) []gen.Row {
+	out := make([]gen.Row, len(names))
+	for i := range names {
+		out[i] = gen.Row{Name: names[i].Name, Seq: seqs[i]}
+	}
+	return out
+}
+
+// apply performs the edits on the bag, in place, with the library's mutators
+func (h *history) apply(sb align.SeqBag, st [][]string) error {
+	for j, e := range h.Edits {
+		target := st[j+1]
+		switch e.Kind {
+		case "rc-all":
+			if err := sb.ReverseComplement(); err != nil {
+				return err
+			}
+		case "rc-some":
+			var names []string
+			for _, i := range e.Rows {
+				if n, ok := sb.GetSequenceNameById(i); ok {
+					names = append(names, n)
+				}
+			}
+			if err := sb.ReverseComplementSequences(names...); err != nil {
+				return err
+			}
+		case "seq-rc":
+			for _, i := range e.Rows {
+				if s, ok := sb.Sequence(i); ok {
+					s.Reverse()
+					if err := s.Complement(); err != nil {
+						return err
+					}
+				}
+			}
+		case "setchar":
+			if e.Row < len(target) && len(target[e.Row]) > 0 {
+				a, b := editRange(e, len(target[e.Row]))
+				for p := a; p < b; p++ {
+					if err := sb.SetSequenceChar(e.Row, p, target[e.Row][p]); err != nil {
+						return err
+					}
+				}
+			}
+		case "write":
+			if s, ok := sb.Sequence(e.Row); ok && len(target[e.Row]) > 0 {
+				a, b := editRange(e, len(target[e.Row]))
+				if b > len(s.SequenceChar()) {
+					return fmt.Errorf("harness: range outside the sequence")
+				}
+				copy(s.SequenceChar()[a:b], target[e.Row][a:b])
+			}
+		case "replace":
+			if e.New != "" && e.Old != "" {
+				if err := sb.Replace(e.Old, e.New, false); err != nil {
+					return err
+				}
+			}
+		}
+	}
+	return nil
+}
+
+func sameFolded(a, b []gen.Row) bool {
+	if len(a) != len(b) {
+		return false
+	}
+	for i := range a {
+		if a[i].Name != b[i].Name || fold(a[i].Seq) != fold(b[i].Seq) {
+			return false
+		}
+	}
+	return true
+}
+
 // ---- running the phaser ---------------------------------------------------------------------------
 
 type result struct {
@@ -752,6 +939,7 @@ type orfCase struct {
 	Reverse bool      `json:"reverse"`
 	Bag     bool      `json:"bag"` // SeqBag.LongestORF(reverse); otherwise Sequence.LongestORF of the first
 	Style   string    `json:"style"`
+	Hist    *history  `json:"hist,omitempty"` // the object was searched once, then edited in place into Seqs
 }
 
 var orfTokens = []string{"ATG", "ATG", "ATG", "ATG", "ATG", "TAA", "TAG", "TGA", "CAT", "CAT", "CAT", "TTA", "CTA", "TCA", "A", "C", "G", "T", "AT", "TG", "ATGA", "CATG", "ATGC", "GCAT"}
@@ -783,6 +971,9 @@ func genOrf(t *rapid.T) orfCase {
 	c.Style = rapid.SampledFrom(styles).Draw(t, "style")
 	for i := range c.Seqs {
 		c.Seqs[i].Seq = restyle(t, c.Seqs[i].Seq, c.Style)
+	}
+	if rapid.IntRange(0, 2).Draw(t, "history") == 0 {
+		c.Hist = genHistory(t, c.Seqs)
 	}
 	return c
 }
@@ -859,6 +1050,9 @@ func judgeORF(c orfCase, got string, found bool, o *pbt.Outcome) error {
 func checkOrf(c orfCase) (o pbt.Outcome, err error) {
 	o.Class("bag=%v reverse=%v", c.Bag, c.Reverse)
 	o.Class("style=%s", c.Style)
+	if c.Hist != nil {
+		return checkOrfHistory(c, o)
+	}
 	if !c.Bag {
 		s := align.NewSequence(c.Seqs[0].Name, []uint8(c.Seqs[0].Seq), "")
 		st, en := s.LongestORF()
@@ -885,6 +1079,74 @@ func checkOrf(c orfCase) (o pbt.Outcome, err error) {
 		return o, judgeORF(c, "", false, &o)
 	}
 	return o, judgeORF(c, orf.Sequence(), true, &o)
+}
+
+// checkOrfHistory: the bag is built in the state before the edits, searched once (bag search and
+// per-sequence search), edited in place; the search is then judged on the content the bag holds
+func checkOrfHistory(c orfCase, o pbt.Outcome) (pbt.Outcome, error) {
+	st := c.Hist.states(c.Seqs)
+	sb := gen.BuildBag(gen.Ali{Rows: rowsOf(c.Seqs, st[0]), Alphabet: "nt"})
+	sb.LongestORF(c.Hist.PriorReverse)
+	if s0, ok := sb.Sequence(0); ok {
+		s0.LongestORF()
+	}
+	if e := c.Hist.apply(sb, st); e != nil {
+		o.Class("history: edit refused")
+		o.Ambiguous++
+		return o, nil
+	}
+	content := gen.Snapshot(sb)
+	for _, r := range content {
+		if strings.Trim(fold(r.Seq), "ACGT") != "" || r.Seq == "" {
+			o.Class("history: content outside the domain")
+			o.Skip = true
+			return o, nil
+		}
+	}
+	c2 := c
+	c2.Seqs = content
+	o.Class("history: searched, edited in place, searched again")
+	for _, e := range c.Hist.Edits {
+		o.Class("history edit=%s", e.Kind)
+	}
+	if !c.Bag {
+		c2.Seqs = content[:1]
+		s, _ := sb.Sequence(0)
+		stt, en := s.LongestORF()
+		if s.Sequence() != content[0].Seq {
+			return o, fmt.Errorf("LongestORF modified the sequence")
+		}
+		if stt == -1 || en == -1 {
+			if stt != en {
+				return o, fmt.Errorf("LongestORF returns (%d,%d)", stt, en)
+			}
+			if err := judgeORF(c2, "", false, &o); err != nil {
+				return o, fmt.Errorf("after a first search and in-place edits (sequence now %q): %v", content[0].Seq, err)
+			}
+			return o, nil
+		}
+		if stt < 0 || en > len(content[0].Seq) || stt > en {
+			return o, fmt.Errorf("after a first search and in-place edits: LongestORF returns (%d,%d) on a sequence of %d (%q)", stt, en, len(content[0].Seq), content[0].Seq)
+		}
+		if err := judgeORF(c2, content[0].Seq[stt:en], true, &o); err != nil {
+			return o, fmt.Errorf("after a first search and in-place edits (sequence now %q): %v", content[0].Seq, err)
+		}
+		return o, nil
+	}
+	orf, e := sb.LongestORF(c.Reverse)
+	if !gen.SameRows(gen.Snapshot(sb), content) {
+		return o, fmt.Errorf("SeqBag.LongestORF modified the sequences")
+	}
+	var err error
+	if e != nil {
+		err = judgeORF(c2, "", false, &o)
+	} else {
+		err = judgeORF(c2, orf.Sequence(), true, &o)
+	}
+	if err != nil {
+		return o, fmt.Errorf("after a first search and in-place edits (sequences now %s): %v", gen.Show(content), err)
+	}
+	return o, nil
 }
 
 func TestLongestORF(t *testing.T) { pbt.Run(t, genOrf, checkOrf) }
